@@ -815,7 +815,8 @@ pub fn run_scenario(r: &mut Rng, ring: &KeyRing, f: Focus) -> Option<Outcome> {
             for j in 0..nassets {
                 let name = vec![0x6d, j as u8];
                 let burn = s.p(4);
-                let q = 1 + s.r.below(1000);
+                // (now and then a "max supply" mint of 2^63 or more: an output may hold it, a mint field may not)
+                let q = if !burn && s.r.below(64) == 0 { (1u64 << 63) + s.r.below(1000) } else { 1 + s.r.below(1000) };
                 let amt = if burn { Int::new_negative(&BigNum::from(q)) } else { Int::new(&BigNum::from(q)) };
                 let res = g!(s, "mint.add_asset", if s.p(12) { mb.add_asset(&wit, &AssetName::new(name.clone()).unwrap(), &amt) } else { mb.set_asset(&wit, &AssetName::new(name.clone()).unwrap(), &amt) });
                 s.log.push(format!("mint {} {} {}{} -> {}", hx(&pid[..4]), hx(&name), if burn { "-" } else { "+" }, q, res.as_ref().map(ok_str).unwrap_or("PANIC".into())));
@@ -1248,7 +1249,8 @@ pub fn run_scenario(r: &mut Rng, ring: &KeyRing, f: Focus) -> Option<Outcome> {
         }
     }
     if s.p(3) {
-        let d = 1 + s.r.below(3_000_000);
+        // (a front end that always forwards the field sends 0 when there is no donation)
+        let d = if s.r.below(6) == 0 { 0 } else { 1 + s.r.below(3_000_000) };
         g!(s, "set_donation", tb.set_donation(&BigNum::from(d)));
         need_coin += d as u128;
         s.log.push(format!("donation {}", d));
